@@ -84,7 +84,7 @@ func runC03(c *core.Ctx) {
 		c.Fail("C03.R0", "anchor/server-model", 0, p)
 	}
 	c03ClientTable(c, m)
-	if m.Global != nil {
+	if m.hasDispatch() {
 		c03ServerTable(c, m)
 	}
 	c03Composition(c)
@@ -305,7 +305,7 @@ func c03ServerTable(c *core.Ctx, m *serverModel) {
 		}
 		h := m.Handlers[kv]
 		if h == nil {
-			c.Fail("C03.R2", "dispatch/"+kname, m.Global.Pos(), "no handler for "+kname)
+			c.Fail("C03.R2", "dispatch/"+kname, m.anchorPos(), "no handler for "+kname)
 			continue
 		}
 		c.Analysed(facts.FuncName(h))
